@@ -255,7 +255,9 @@ func (C10) Execute(t *testing.T, sc *core.Scenario) *core.Result {
 	}
 	var targets []string
 	for p := range files {
-		if k := fileKind(p); k != "LOCK" && k != "other" && len(files[p]) > 0 {
+		// journal.idx is not one of the statement's files ("table files, archives, journal or
+		// manifest"); its corruption is C04's subject
+		if k := fileKind(p); k != "LOCK" && k != "other" && k != "journal.idx" && len(files[p]) > 0 {
 			targets = append(targets, p)
 		}
 	}
